@@ -788,7 +788,12 @@ def build_world(sc, schedule=(), policy=None, granularity="locks", cls=None):
     send_plan=[...], recv_faults={k: errno}, lookahead=int, workers=int)"""
     cls = cls or CloseWorld
     data = b"".join(req_bytes(k, i) for i, k in enumerate(sc["msgs"]))
-    cuts = [c for c in sc.get("cuts", []) if 0 < c < len(data)]
+    cuts = [c for c in sc.get("cuts", []) if isinstance(c, int) and 0 < c < len(data)]
+    if "boundaries" in sc.get("cuts", []):
+        acc = 0
+        for i, k in enumerate(sc["msgs"][:-1]):
+            acc += len(req_bytes(k, i))
+            cuts.append(acc)
     script = []
     prev = 0
     for c in sorted(set(cuts)) + [len(data)]:
@@ -840,7 +845,16 @@ def gen_scenario(rng, with_faults=True):
         cuts = [rng.randrange(1, total) for _ in range(rng.choice([1, 2]))]
     sc = {"msgs": msgs, "cuts": cuts, "close": rng.random() < 0.3,
           "lookahead": rng.choice([0, 0, 1, 2, 5]), "workers": rng.choice([1, 1, 2, 3])}
-    if with_faults and rng.random() < 0.45:
+    r = rng.random()
+    if r < 0.2:
+        # a slow client: the kernel takes a few bytes, then nothing, for several flush rounds
+        plan = []
+        for _ in range(rng.choice([1, 2, 3, 4, 5])):
+            plan += [rng.choice([1, 7, 40]), 0]
+        if with_faults and rng.random() < 0.2:
+            plan.append(["err", rng.choice([errno.EHOSTUNREACH, errno.EPIPE])])
+        sc["send_plan"] = plan
+    elif with_faults and r < 0.55:
         plan = []
         for _ in range(rng.choice([1, 2, 3])):
             r = rng.random()
@@ -858,6 +872,19 @@ def gen_scenario(rng, with_faults=True):
     if with_faults and rng.random() < 0.1:
         sc["recv_faults"] = {str(rng.choice([0, 1])): rng.choice([errno.ECONNRESET, errno.EHOSTUNREACH])}
     return sc
+
+
+def gen_race_scenario(rng):
+    """The family behind GHSA-9298-4cf8-g4wj: a closing exchange is being served while the I/O thread
+    (lookahead >= 1) reads what the client sent behind it, in later reads."""
+    first = rng.choice(["close", "v10", "bad", "raise", "nolen"])
+    msgs = [first] if rng.random() < 0.8 else ["get", first]
+    for _ in range(rng.choice([1, 1, 2])):
+        msgs.append(rng.choice(["get", "get", "post", "close", "bad"]))
+    if rng.random() < 0.2:
+        msgs.append("part")
+    return {"msgs": msgs, "cuts": ["boundaries"], "close": rng.random() < 0.2,
+            "lookahead": rng.choice([1, 1, 2, 5]), "workers": rng.choice([1, 1, 2])}
 
 
 def make_policy(rng, kind, est=200):
